@@ -29,6 +29,9 @@ def main():
             continue
         jobs.append((src, os.path.join(B, "mod_" + name + ".o"), CXX + ["-O2", "-fsanitize=address,undefined"]))
         jobs.append((src, os.path.join(B, "mod_" + name + "_fast.o"), CXX + ["-O2"]))
+    # libFuzzer targets over the assembled daemon: the harness itself is not coverage-instrumented (only the daemon's objects guide the fuzzer)
+    for src in sorted(glob.glob(os.path.join(VERIF, "fuzz", "*.cpp"))):
+        jobs.append((src, os.path.join(B, "fuzz_" + os.path.basename(src)[:-4] + ".o"), CXX + SAN))
     todo = []
     for src, obj, flags in jobs:
         d = digest([src] + hdrs, flags)
